@@ -14,7 +14,7 @@ pub fn vector_commit(
     ensures
         final(transcript).digest@ == ts_absorb1(old(transcript).digest@, unsent_commitment@), // [C01,C02,C08:commitment-root-absorbed]
         final(transcript).counter@ == 0,
-        r.commitment_hash == unsent_commitment, r.config == config, // [C01,C02,C08:commitment-keeps-root-and-config]
+        r.commitment_hash == unsent_commitment, r.config == config, // [C01,C02,C08,C18:commitment-keeps-root-and-config]
 {
     transcript.read_felt_from_prover(&unsent_commitment);
     Commitment { commitment_hash: unsent_commitment, config }
